@@ -169,11 +169,13 @@ var Profiles = map[string]func() Profile{
 		p.W = wts(int(KNewEntity), 14, int(KNewBatch), 5, int(KAdd), 10, int(KRemove), 8, int(KExchange), 5, int(KSet), 3, int(KWrite), 2,
 			int(KSetRel), 6, int(KCopy), 2, int(KRemoveEntity), 8, int(KAddBatch), 3, int(KRemoveBatch), 3,
 			int(KSetRelBatch), 3, int(KRemoveEntities), 3, int(KReset), 4, int(KShrink), 2, int(KRegFilter), 5, int(KUnregFilter), 2,
-			int(KRegObs), 6, int(KUnregObs), 2, int(KAddRes), 4, int(KRemoveRes), 2, int(KEmit), 2, int(KStats), 2)
+			int(KRegObs), 6, int(KUnregObs), 2, int(KAddRes), 4, int(KRemoveRes), 2, int(KEmit), 2, int(KStats), 2,
+			int(KOpenQuery), 4, int(KStepQuery), 4, int(KCloseQuery), 2, int(KMisuse), 2, int(KExchangeBatch), 2)
 		p.RelPct = 70
 		p.HotComps = 6
 		p.FilterSlots = 5
 		p.ObsSlots = 6
+		p.QuerySlots = 8
 		p.MaxAlive = 40
 		return p
 	},
